@@ -165,6 +165,8 @@ namespace bloch::runtime {
         int line = 0;
         int column = 0;
         size_t offset = 0;
+        // the class whose body declares the field (for a generic class, the template's name)
+        std::string declaredIn;
     };
 
     struct RuntimeMethod;
@@ -212,6 +214,7 @@ namespace bloch::runtime {
         bool destroyed = false;
         RuntimeEvaluator* owner = nullptr;
         bool marked = false;
+        bool trackedRecorded = false;
         // Simulator qubits allocated for this object's own qubit fields. Only these are reset
         // and released when the object dies; a field may later hold a handle owned elsewhere.
         std::vector<int> ownedQubits;
@@ -344,6 +347,7 @@ namespace bloch::runtime {
         RuntimeField* findStaticField(RuntimeClass* cls, const std::string& name);
         Value asDeclared(Value v, const RuntimeTypeInfo& declared) const;
         bool qubitStillNamed(int index, const Object* except) const;
+        void recordTrackedFields(Object* obj);
         void initStaticFields(RuntimeClass* cls);
         // Static field lookup through the class chain; initialises the owner's statics first if
         // that has not happened yet, so initialisation order follows use, not declaration order.
